@@ -783,6 +783,9 @@ def str_starts_with(m, a, ci):
         return len(s) > 0 and c_eq(s.chars[0], p)
     if kind == 'str':
         return len(s) >= len(p) and str_eq(s.sub(0, len(p)), p)
+    f = char_pred(m, a[1])
+    if f is not None:
+        return len(s) > 0 and f(s.chars[0])
     raise EncoderGap('starts_with with %s pattern' % kind)
 
 
@@ -794,6 +797,9 @@ def str_ends_with(m, a, ci):
         return len(s) > 0 and c_eq(s.chars[-1], p)
     if kind == 'str':
         return len(s) >= len(p) and str_eq(s.sub(len(s) - len(p), len(s)), p)
+    f = char_pred(m, a[1])
+    if f is not None:
+        return len(s) > 0 and f(s.chars[-1])
     raise EncoderGap('ends_with with %s pattern' % kind)
 
 
@@ -2507,3 +2513,16 @@ def u8_is_ascii_whitespace(m, a, ci):
 @reg('Itertools::collect_vec')
 def itertools_collect_vec(m, a, ci):
     return Vec(drain(m, get_iter(m, a[0])), 'Vec')
+
+
+@reg('Itertools::join')
+def itertools_join(m, a, ci):
+    """itertools' join: the Display of every item separated by `sep` (items here are strings)"""
+    items = drain(m, get_iter(m, a[0]))
+    sep = _s(m, a[1])
+    out = Str(())
+    for i, it in enumerate(items):
+        if i:
+            out = out.concat(sep)
+        out = out.concat(_s(m, it))
+    return out
